@@ -382,18 +382,25 @@ func (x *Explorer) load(addr *Term, typ types.Type) *Term {
 			return av
 		}
 	}
+	// by-value struct in memory whose holder cell is known: project the field
+	if addr.Kind == KFieldAddr {
+		if hv, ok := x.mem[addr.Args[0].ID]; ok && !havoced && hv != unkTerm {
+			return x.fieldOfValue(hv, addr.Var, typ)
+		}
+	}
+	if addr.Kind == KIndexAddr {
+		if hv, ok := x.mem[addr.Args[0].ID]; ok && !havoced && hv != unkTerm && hv.Type != nil {
+			if _, isArr := hv.Type.Underlying().(*types.Array); isArr {
+				return x.T.mk(Term{Kind: KIndex, Args: []*Term{hv, addr.Args[1]}, Type: typ})
+			}
+		}
+	}
 	// fresh allocation on this path: zero content
 	if root := addrRoot(addr); !havoced && root != nil && root.Kind == KAlloc && x.allocN[root.Ref.(*ssa.Alloc)] == root.N && root.N > 0 {
 		if !x.allocTouched(root) {
 			z := x.zero(typ)
 			x.setMem(addr, z)
 			return z
-		}
-	}
-	// by-value struct in memory whose holder cell is known: project the field
-	if addr.Kind == KFieldAddr {
-		if hv, ok := x.mem[addr.Args[0].ID]; ok && !havoced && hv != unkTerm && hv.Kind != KLoad {
-			return x.fieldOfValue(hv, addr.Var, typ)
 		}
 	}
 	t := x.T.mk(Term{Kind: KLoad, Args: []*Term{addr}, N: x.next(), Type: typ})
